@@ -37,7 +37,17 @@ theorem gen_match_line_rui_eq (p : Pos) (line : Int) : gen_match_line_rui p line
   try simp only [gen_match_line_rui, sameLine, fuzzyColumnMatch, matchLoc, matchLoc1, ddMatchLoc, ddMatch1, matchLine, lineFilter, coversLine, covers1]
   all_goals first | rfl | grind | (simp; done)
 
-theorem gen_line_filter_eq (p : Pos) (excl : List Int) (incl : List Int) : gen_line_filter p excl incl = lineFilter excl incl p := rfl
+theorem gen_line_filter_1_eq (p : Pos) (line : Int) : gen_line_filter_1 p line = matchLine p line := by
+  try simp only [gen_line_filter_1, sameLine, fuzzyColumnMatch, matchLoc, matchLoc1, ddMatchLoc, ddMatch1, matchLine, lineFilter, coversLine, covers1, gen_match_line_eq]
+  all_goals first | rfl | grind | (simp; done)
+
+theorem gen_line_filter_2_eq (p : Pos) (line : Int) : gen_line_filter_2 p line = matchLine p line := by
+  try simp only [gen_line_filter_2, sameLine, fuzzyColumnMatch, matchLoc, matchLoc1, ddMatchLoc, ddMatch1, matchLine, lineFilter, coversLine, covers1, gen_match_line_eq]
+  all_goals first | rfl | grind | (simp; done)
+
+theorem gen_line_filter_eq (p : Pos) (excl : List Int) (incl : List Int) : gen_line_filter p excl incl = lineFilter excl incl p := by
+  try simp only [gen_line_filter, sameLine, fuzzyColumnMatch, matchLoc, matchLoc1, ddMatchLoc, ddMatch1, matchLine, lineFilter, coversLine, covers1, gen_match_line_eq, gen_line_filter_1_eq, gen_line_filter_2_eq]
+  all_goals first | rfl | grind | (simp; done)
 
 theorem gen_line_filter_rui_1_eq (p : Pos) (line : Int) : gen_line_filter_rui_1 p line = matchLine p line := by
   try simp only [gen_line_filter_rui_1, sameLine, fuzzyColumnMatch, matchLoc, matchLoc1, ddMatchLoc, ddMatch1, matchLine, lineFilter, coversLine, covers1, gen_match_line_rui_eq]
